@@ -87,7 +87,7 @@ MIG_GEN = [
     gen("qOne", Q, consts(**ONE, stake=4, ticks=1), STD, "CoinsStd", shards=14, rej_sample=6, explore=2),
     gen("qShared", Q, consts(**SHARED, stake=4, ticks=1), STD, "CoinsStd", shards=14, rej_sample=6, explore=2),
     gen("qStaked", Q, consts(**STAKED, stake=3), STD, "CoinsStd", shards=8, rej_sample=6, explore=2),
-    gen("qMature", Q, consts(**MATURE, stake=4, ticks=1), STD, "CoinsStd", shards=14, rej_sample=6, explore=2),
+    gen("qMature", Q, consts(**MATURE, stake=3, ticks=1), STD, "CoinsStd", shards=14, rej_sample=6, explore=2),
     gen("qGov", Q, consts(**GOV2, props=2, govops=4), GOVC, "CoinsGov", shards=14, rej_sample=6, explore=2),
     # thorough: every operation of the alphabet in every expanded state
     gen("tOne", T, consts(**ONE, stake=5, ticks=1), STD, "CoinsStd", shards=16, rej_sample=0, explore=3),
